@@ -85,6 +85,13 @@ CFG = dict(
           "SEQUENCES of records through one handler / fresh handlers / derived handlers of one process whose times share a Unix second "
           "but differ in zone offset (UTC, +08:00, -03:30, +05:45, +14:00, -12:00, +00:53:28, ...), pairs one nanosecond apart across a "
           "second boundary, the zero time, year 9999/10000 - each record judged against time.AppendFormat of its own time. "
+          "HISTORIES with failing destination Writes (harness/cmd/c01/history.go): per scenario a derivation tree over a scripted destination "
+          "(plus, half of the time, a second JSON handler with its own destination) on which the next 1..8 Writes return an error / write short / "
+          "return EOF / EAGAIN / panic (recovered above), or an unrelated Text / Nano handler loses records, followed by plain records, NESTED "
+          "records (a LogValuer / json.Marshaler / error method of an attribute - bare, in a keyed or inline group - logs 1..2 inner records "
+          "through the same, a derived or the other handler, two levels deep) and OVERLAPPING records (a second goroutine's record is parked "
+          "inside a LogValuer while inner records are logged); every record, including those whose Write is scripted to fail, is a case whose "
+          "writes are what its destination received during its own Handle call minus the windows of the records completed meanwhile. "
           "distinct = distinct case lines; lines above 6000 bytes carry the tag EL and are not drawn into the in-Coq sample"),
     trusted_base=[HARNESS_TB, EXTRACT_TB,
                   "Lib/Json.v is my reading of RFC 8259 (strict, except that an invalid UTF-8 byte inside a string reads as U+FFFD like in "
